@@ -1159,11 +1159,16 @@ fn gen_acc_trace(rng: &mut Rng, o: &GenOpts, sweep_len: Option<usize>) -> AccTra
 /// of the fill level.
 fn gen_huge(rng: &mut Rng, overflow: bool) -> AccTrace {
     let n = *rng.pick(&HUGE);
-    let shape = Shape::Bytes;
-    let small = |rng: &mut Rng| -> Seg {
+    // a byte array, or (a third of the time) a sequence of more than 65 535 one-byte elements
+    let shape = if rng.chance(1, 3) { Shape::Seq(Box::new(Shape::U8)) } else { Shape::Bytes };
+    let shape_c = shape.clone();
+    let small = move |rng: &mut Rng| -> Seg {
         let k = rng.range(0, 6);
-        let v = Val::Bytes(nonzero_bytes(rng, k));
-        let m = Msg { shape: Shape::Bytes, val: v };
+        let v = match &shape_c {
+            Shape::Bytes => Val::Bytes(nonzero_bytes(rng, k)),
+            _ => Val::Seq((0..k).map(|_| Val::Uint(1 + rng.below(255) as u128)).collect()),
+        };
+        let m = Msg { shape: shape_c.clone(), val: v };
         Seg { kind: SegKind::Valid, bytes: cobs_frame(&m.ref_encode()), expect: Some(Expect::Value(m.val)) }
     };
     let mut segments = Vec::new();
